@@ -3,6 +3,7 @@ import json
 
 import asm_common as ac
 import codec_impl as ci
+import codec_tables as ct
 
 
 def gen_instrs(ctx, impl, n_rand):
@@ -30,26 +31,100 @@ def gen_instrs(ctx, impl, n_rand):
     return out
 
 
-def run_one(impl, fname, p):
-    """-> dict(instr, str, back, ok)"""
-    instr = impl.build_instr(fname, p[0], p[1])
-    s = str(instr)
+def operand_slices(row):
+    """[(first leaf, number of leaves)] per operand of the class"""
+    out, i = [], 0
+    for k in row["kinds"]:
+        out.append((i, ct.NLEAVES[k]))
+        i += ct.NLEAVES[k]
+    return out
+
+
+def gen_mutations(ctx, impl, n_rand):
+    """[(flavour, [class, leaves before], 'mutated', [leaves after], [changed operand indices])]:
+    print -> assign new operands to fields of the SAME object -> print.  Per class: each operand
+    field alone (so every operand kind of every class is covered), all fields at once, random subsets."""
+    rng = ctx.rng
+    out = []
+    for fname in ac.FLAVS:
+        for row in impl.ct["flavours"][fname]["rows"]:
+            sl = operand_slices(row)
+            if not sl:
+                continue
+            plans = [[j] for j in range(len(sl))] + [list(range(len(sl)))]
+            for _ in range(n_rand):
+                plans.append(sorted(rng.sample(range(len(sl)), rng.randint(1, len(sl)))))
+            rs = ci.leaf_ranges(row)
+            for plan in plans:
+                name, before = ci.gen_in_range_instr(rng, row)
+                _, fresh = ci.gen_in_range_instr(rng, row)
+                after = list(before)
+                for j in plan:
+                    a, n = sl[j]
+                    after[a:a + n] = fresh[a:a + n]
+                    if after[a:a + n] == before[a:a + n]:  # must really change: move the last leaf inside its range
+                        lo, hi = rs[a + n - 1]
+                        after[a + n - 1] = before[a + n - 1] + 1 if before[a + n - 1] < hi else before[a + n - 1] - 1
+                out.append((fname, [name, list(before)], "mutated", after, plan))
+    return out
+
+
+def parse_back(impl, fname, instr, text):
+    """-> (ok, view of the single parsed instruction or None, error name)"""
     try:
-        sub = impl.text.parse_text_subroutine(ac.HEADER + s + "\n", flavour=impl.flav[fname])
+        sub = impl.text.parse_text_subroutine(ac.HEADER + text + "\n", flavour=impl.flav[fname])
         instrs = list(sub.instructions)
     except Exception as e:  # refusal to parse
-        return dict(instr=p, str=s, back=None, ok=False, err=type(e).__name__)
-    ok = instrs == [instr]
-    back = impl.view_instr(instrs[0]) if len(instrs) == 1 else None
-    return dict(instr=p, str=s, back=back, ok=ok, err=None, n=len(instrs))
+        return False, None, type(e).__name__
+    return instrs == [instr], (impl.view_instr(instrs[0]) if len(instrs) == 1 else None), None
 
 
-def stable_oracle(impl, fname, body):
-    """text -> binary -> text for a whole subroutine; None if it holds, else a description"""
+def assign_operands(impl, fname, instr, name, after, plan):
+    """instr.<operand field> = new operand, for the operand indices in plan (same object)"""
+    row = impl.rows[fname][name]
+    fields, kinds = ct.operand_fields(row["cls"])
+    for j in plan:
+        a, n = operand_slices(row)[j]
+        setattr(instr, fields[j], ct.mk_operand(impl.operand, impl.encoding, kinds[j], after[a:a + n]))
+
+
+def run_one(impl, fname, p, after=None, plan=None):
+    """-> dict(instr, str, back, ok).  With after/plan: the object is printed and parsed, then its
+    operand fields are assigned in place, and the SECOND print / parse is what is reported
+    (instr = the operands the object holds now)."""
+    instr = impl.build_instr(fname, p[0], p[1])
+    s = str(instr)
+    ok, back, err = parse_back(impl, fname, instr, s)
+    if after is None or not ok:
+        return dict(instr=p, str=s, back=back, ok=ok, err=err)
+    assign_operands(impl, fname, instr, p[0], after, plan)
+    now = impl.view_instr(instr)
+    s2 = str(instr)
+    ok2, back2, err2 = parse_back(impl, fname, instr, s2)
+    fresh = str(impl.build_instr(fname, p[0], after))
+    return dict(instr=[p[0], list(after)], str=s2, back=back2, ok=ok2 and s2 == fresh and now == [p[0], list(after)],
+                err=err2, before=p, first_print=s, changed_operands=plan, fresh_print=fresh, holds_now=now)
+
+
+def stable_oracle(impl, fname, body, muts=None):
+    """text -> binary -> text for a whole subroutine; None if it holds, else a description.
+    muts = {position: (leaves after, changed operand indices)}: the instruction objects are printed
+    once, changed in place, and the subroutine is printed again before the round trip."""
     instrs = [impl.build_instr(fname, n, lv) for n, lv in body]
     lines = [str(i) for i in instrs]
+    first = None
+    if muts:
+        first = lines
+        for k, (after, plan) in muts.items():
+            assign_operands(impl, fname, instrs[k], body[k][0], after, plan)
+        lines = [str(i) for i in instrs]
+        expect = [str(impl.build_instr(fname, body[k][0], muts[k][0] if k in muts else body[k][1])) for k in range(len(body))]
+        if lines != expect:
+            return dict(first_print=first, second_print=lines, expected=expect)
     try:
         sub = impl.text.parse_text_subroutine(ac.HEADER + "\n".join(lines) + "\n", flavour=impl.flav[fname])
+        if muts and list(sub.instructions) != instrs:
+            return dict(first_print=first, second_print=lines, error="parsed subroutine differs from the objects")
         raw = bytes(sub)
         back = impl.deserialize(raw, flavour=impl.flav[fname])
         lines2 = [str(i) for i in back.instructions]
@@ -63,8 +138,9 @@ def stable_oracle(impl, fname, body):
 def evaluate(ctx, impl, items, prefix):
     per = {f: [] for f in ac.FLAVS}
     meta = {f: [] for f in ac.FLAVS}
-    for fname, p, tag in items:
-        r = run_one(impl, fname, p)
+    for it in items:
+        fname, p, tag = it[:3]
+        r = run_one(impl, fname, p, *it[3:])
         r["tag"], r["flavour"] = tag, fname
         per[fname].append(r)
         meta[fname].append(r)
@@ -76,37 +152,69 @@ def run(ctx):
     ctx.rule = ("per flavour: every class x (pairwise-distinct operands, each operand leaf at its boundary values, random "
                 "in-range valuations, integers beyond the encodable range); str(instr) is compared with the model printer and "
                 "parse_text_subroutine(str(instr), flavour) with the model parser; oracle: the parsed subroutine is exactly "
-                "[instr]; plus random in-range sequences (len 1..25) through text -> binary -> text; non-trivial = every "
-                "case; distinct = distinct (flavour, class, operands)")
+                "[instr]; the same after print -> assign new operands to dataclass fields of the SAME object (each operand "
+                "field of each class alone, all at once, random subsets) -> print, where the second text must be the text of "
+                "the current operands; plus random in-range sequences (len 1..25) through text -> binary -> text, half of "
+                "them printed twice around in-place changes of 1..3 instructions; non-trivial = every case; distinct = "
+                "distinct (flavour, class, operands [before, after])")
     impl = ac.prepare(ctx)
     if impl is None:
         raw_search(ctx)
         return ctx.finish()
     ctx.props("C17")
     quick = ctx.tier == "quick"
-    items = gen_instrs(ctx, impl, 6 if quick else 150)
+    items = gen_instrs(ctx, impl, 6 if quick else 150) + gen_mutations(ctx, impl, 2 if quick else 40)
     results, differing = evaluate(ctx, impl, items, "pcases")
     stats = {}
     for r in results:
         stats[r["tag"]] = stats.get(r["tag"], 0) + 1
-        ctx.note_case((r["flavour"], r["instr"][0], tuple(r["instr"][1])), nontrivial=True)
-        if not r["ok"]:
+        ctx.note_case((r["flavour"], r["instr"][0], tuple(r["instr"][1]), tuple(r["before"][1]) if "before" in r else None),
+                      nontrivial=True)
+        if not r["ok"] and "before" in r:
+            ctx.violation("after assigning new operands to fields of an instruction that was already printed, str(instr) "
+                          "is not the text of its current operands / does not parse back to an equal instruction",
+                          dict(flavour=r["flavour"], cls=r["instr"][0], operands_before=r["before"][1],
+                               operands_after=r["instr"][1], changed_operands=r["changed_operands"],
+                               first_print=r["first_print"], second_print=r["str"], text_of_current_operands=r["fresh_print"],
+                               object_holds=r["holds_now"], parsed_back=r["back"], err=r["err"],
+                               instr=r["before"], after=r["instr"][1], plan=r["changed_operands"]), key=None)
+        elif not r["ok"]:
             ctx.violation("parse_text_subroutine(str(instr), flavour).instructions != [instr]",
                           dict(flavour=r["flavour"], instr=r["instr"], printed=r["str"], parsed_back=r["back"], err=r["err"]),
                           key=None)
     ctx.samples = [dict(flavour=r["flavour"], instr=r["instr"], printed=r["str"]) for r in results[:3] + results[-3:]]
     rng = ctx.rng
-    n_seq, n_bad = (120 if quick else 3000), 0
+    n_seq, n_bad, n_mut_seq = (120 if quick else 3000), 0, 0
     for _ in range(n_seq):
         fname = rng.choice(ac.FLAVS)
         rows = impl.ct["flavours"][fname]["rows"]
         body = [ci.gen_in_range_instr(rng, rng.choice(rows)) for _ in range(rng.randint(1, 25))]
         ctx.note_case((fname, "seq", json.dumps(body)), nontrivial=True)
-        bad = stable_oracle(impl, fname, body)
+        muts = None
+        if rng.random() < 0.5:  # print the subroutine, change some instructions in place, print again
+            muts = {}
+            for k in rng.sample(range(len(body)), rng.randint(1, min(3, len(body)))):
+                row = impl.rows[fname][body[k][0]]
+                sl = operand_slices(row)
+                if not sl:
+                    continue
+                plan = sorted(rng.sample(range(len(sl)), rng.randint(1, len(sl))))
+                after = list(body[k][1])
+                fresh = ci.gen_in_range_instr(rng, row)[1]
+                for j in plan:
+                    a, n = sl[j]
+                    after[a:a + n] = fresh[a:a + n]
+                muts[k] = (after, plan)
+            n_mut_seq += 1
+        bad = stable_oracle(impl, fname, body, muts)
         if bad is not None:
             n_bad += 1
-            ctx.violation("text -> binary -> text is not stable for a subroutine", dict(flavour=fname, body=body, **bad), key=None)
+            ctx.violation("text -> binary -> text is not stable for a subroutine"
+                          + (" printed again after in-place changes of its instructions" if muts else ""),
+                          dict(flavour=fname, body=body, mutations={str(k): v for k, v in (muts or {}).items()}, **bad),
+                          key=None)
     stats["sequences"] = n_seq
+    stats["sequences-printed-twice-around-in-place-change"] = n_mut_seq
     ctx.coverage["stream_distribution"] = stats
     ctx.coverage["model_impl_differences"] = len(differing)
     ctx.trusted.append("correspondence: Text.pp_instr / Text.parse_line evaluated by vm_compute inside coqc on generated case "
@@ -186,12 +294,13 @@ def replay(ctx, path):
     rec = rec.get("replay", rec)
     impl = ac.prepare(ctx)
     if "instr" in rec:
-        r = run_one(impl, rec["flavour"], rec["instr"])
+        r = run_one(impl, rec["flavour"], rec["instr"], rec.get("after"), rec.get("plan"))
         print("replay:", r)
         if not r["ok"]:
-            ctx.violation("parse_text_subroutine(str(instr), flavour).instructions != [instr]", rec)
+            ctx.violation("str(instr) does not parse back to [instr] (after in-place changes if 'after' is given)", rec)
     else:
-        bad = stable_oracle(impl, rec["flavour"], [tuple(x) for x in rec["body"]])
+        muts = {int(k): (v[0], v[1]) for k, v in rec.get("mutations", {}).items()} or None
+        bad = stable_oracle(impl, rec["flavour"], [tuple(x) for x in rec["body"]], muts)
         print("replay:", bad)
         if bad is not None:
             ctx.violation("text -> binary -> text is not stable for a subroutine", rec)
